@@ -219,6 +219,8 @@ pub enum Stmt {
     Return(Option<Expr>),
     /// `{ - c1: block - c2: block - else: block }`
     If(Vec<(Expr, Vec<Stmt>)>, Option<Vec<Stmt>>),
+    /// `{ stopping: - lines - lines }` (also cycle, once)
+    SeqBlock(SeqKind, Vec<Vec<TextLine>>),
 }
 
 #[derive(Debug, Clone, PartialEq)]
@@ -361,6 +363,25 @@ fn print_stmt(out: &mut String, s: &Stmt, indent: usize) {
         Stmt::End => out.push_str(&format!("{i}-> END\n")),
         Stmt::Return(None) => out.push_str(&format!("{i}~ return\n")),
         Stmt::Return(Some(e)) => out.push_str(&format!("{i}~ return {}\n", e.print_top())),
+        Stmt::SeqBlock(kind, branches) => {
+            let word = match kind {
+                SeqKind::Stopping => "stopping",
+                SeqKind::Cycle => "cycle",
+                SeqKind::Once => "once",
+                SeqKind::Shuffle => "shuffle",
+            };
+            out.push_str(&format!("{i}{{ {word}:\n"));
+            for lines in branches {
+                for (k, l) in lines.iter().enumerate() {
+                    if k == 0 {
+                        out.push_str(&format!("{i}    - {}\n", l.print()));
+                    } else {
+                        out.push_str(&format!("{i}      {}\n", l.print()));
+                    }
+                }
+            }
+            out.push_str(&format!("{i}}}\n"));
+        }
         Stmt::If(branches, els) => {
             if branches.len() == 1 && els.is_none() {
                 out.push_str(&format!("{i}{{ {}:\n", branches[0].0.print_top()));
@@ -602,6 +623,14 @@ impl Program {
                     }
                     Stmt::Call(_, _) => {
                         f.insert("call_stmt");
+                    }
+                    Stmt::SeqBlock(_, br) => {
+                        f.insert("block_sequence");
+                        for b in br {
+                            for l in b {
+                                inl(&l.parts, f);
+                            }
+                        }
                     }
                     Stmt::TempDecl(_, _) => {
                         f.insert("temp");
